@@ -52,7 +52,7 @@ def gen_family(rng, variant):
     if variant == 'copies':
         return rng.choice(['vc', 'scripted', 'parser', 'linker', 'linker', 'alias', 'tracer', 'alias+tracer'])
     if variant == 'reindex':
-        return rng.choice(['vc', 'vc', 'scripted', 'parser', 'pandasmixin', 'pandasmixin'])
+        return rng.choice(['vc', 'vc', 'scripted', 'parser', 'pandasmixin', 'pandasmixin', 'tracer', 'alias+tracer'])
     if variant == 'labels':
         return rng.choice(['vc', 'vc', 'vc', 'scripted', 'parser', 'linker', 'alias', 'alias'])
     return rng.choice(['vc', 'vc', 'vc', 'scripted', 'parser', 'linker'])
@@ -1712,7 +1712,7 @@ def do_mutate_list(party, op, ctx):
             return 'skipped'
         tr = d['_trace']
         t_ = tr[k % len(tr)]
-        if isinstance(t_.names, list):
+        if isinstance(getattr(t_, 'names', None), list):
             t_.names.append('__probe__')
             ctx.probe('list-mutated:trace-names')
             return 'ok'
@@ -1740,8 +1740,10 @@ def do_mutate_list(party, op, ctx):
 def do_reindex(fsic, parties, party, op, ctx, before_obs, universe_spec, spec):
     x = party.obj
     d = x.__dict__
-    if 'submodels' in d or 'trace' in d['index'] or universe_spec is None or party.universe is not None or party.span_spec is None:
+    if 'submodels' in d or universe_spec is None or party.universe is not None or party.span_spec is None:
         return 'skipped'
+    if 'trace' in d['index']:
+        ctx.probe('reindex:of-a-traced-model')
     n = party.n
     uni = spans.make_span(universe_spec)
     uni_labels = spans.elements(uni)
@@ -1843,6 +1845,8 @@ def do_reindex(fsic, parties, party, op, ctx, before_obs, universe_spec, spec):
     for nm in d['index']:
         old = party.ref[nm]
         dt = old.dtype
+        if dt.kind == 'O':
+            continue  # the tracer's record (one log object per period): judged by content below, no fill is defined for it
         val = fills.get(nm, fv)
         if is_model and nm in ('status', 'iterations'):
             # the model's bookkeeping defaults ('-' and -1) yield only to a per-variable keyword, not to fill_value
@@ -1897,6 +1901,14 @@ def do_reindex(fsic, parties, party, op, ctx, before_obs, universe_spec, spec):
             continue
         ctx.check('C12', f'{sig}/dtype-carried-over', got.dtype == party.ref[nm].dtype, {'name': nm, 'got': str(got.dtype), 'want': str(party.ref[nm].dtype)})
         ctx.check('C12', f'{sig}/length', got.shape == (len(new_labels),), {'name': nm, 'shape': list(got.shape)})
+        if got.dtype.kind == 'O' and got.shape == (len(new_labels),):
+            # each period present in both spans holds its old record (equal in content; that it is not the very same
+            # object is the independence clause, exercised by the operations that follow)
+            old_ = d['_' + nm]
+            for p_, j_ in enumerate(source):
+                if j_ is not None:
+                    ctx.check('C12', f'{sig}/overlap/object-{relation}', O.obs_value(got[p_]) == O.obs_value(old_[j_]), {'name': nm, 'period': p_})
+            continue
         if nm in expected and got.shape == expected[nm].shape and got.dtype == expected[nm].dtype:
             kindname = {'f': 'float', 'i': 'int', 'u': 'int', 'b': 'bool', 'U': 'str'}.get(got.dtype.kind, 'other')
             src = 'per-variable' if nm in fills else 'fill_value' if fv is not None else 'default'
